@@ -135,11 +135,31 @@ func TravelerPathLookup(traveler gdbi.Traveler, path string) interface{} {
 		fmt.Printf("Null field, return %#v\n", doc)
 		return doc
 	}
-	res, err := jsonpath.JsonPathLookup(doc, field)
+	res, err := safeLookup(doc, field)
 	if err != nil {
 		return nil
 	}
 	return res
+}
+
+// safeLookup shields callers from panics of the path library on paths it cannot apply
+// (for instance an index applied to a null value)
+func safeLookup(doc map[string]interface{}, field string) (res interface{}, err error) {
+	defer func() {
+		if r := recover(); r != nil {
+			res, err = nil, fmt.Errorf("invalid path %s: %v", field, r)
+		}
+	}()
+	return jsonpath.JsonPathLookup(doc, field)
+}
+
+func safeSet(doc map[string]interface{}, field string, val interface{}) (err error) {
+	defer func() {
+		if r := recover(); r != nil {
+			err = fmt.Errorf("invalid path %s: %v", field, r)
+		}
+	}()
+	return jsonpath.JsonPathSet(doc, field, val)
 }
 
 // TravelerSetValue(travler, "$gene.symbol.ensembl", "hi") inserts the value in the location"
@@ -150,7 +170,7 @@ func TravelerSetValue(traveler gdbi.Traveler, path string, val interface{}) erro
 		return nil
 	}
 	doc := GetDoc(traveler, namespace)
-	return jsonpath.JsonPathSet(doc, field, val)
+	return safeSet(doc, field, val)
 }
 
 // TravelerPathExists returns true if the field exists in the given Traveler
@@ -161,7 +181,7 @@ func TravelerPathExists(traveler gdbi.Traveler, path string) bool {
 		return false
 	}
 	doc := GetDoc(traveler, namespace)
-	_, err := jsonpath.JsonPathLookup(doc, field)
+	_, err := safeLookup(doc, field)
 	return err == nil
 }
 
